@@ -17,9 +17,10 @@ import (
 // c19Vouchers explores sequences of voucher / voucher-result exchanges (including failed sends)
 // and checks the log rules of C19 plus views.Check on every state handed out.
 func c19Vouchers(x *mc.Cell, r Role, depth int) {
-	for _, state := range []string{"accepted", "ongoing", "other-paused"} {
-		if r.Created() && state == "accepted" {
-			state = "requested"
+	// every live state the driver can reach for the role (vouchers and results are recorded in all of them)
+	for _, state := range StatesFor(r) {
+		if IsTerminalState(state) {
+			continue
 		}
 		state := state
 		name := fmt.Sprintf("c19/%s/%s", RoleNames[r], state)
